@@ -15,8 +15,8 @@ Inductive prog (A : Type) : Type :=
 | Ret (a : A)
 | Peek (k : N) (c : option byte -> prog A)     (* request_byte_at_offset(k) *)
 | Advance (n : N) (c : prog A)                  (* advance(n) *)
-| BufLenGe (n : N) (c : bool -> prog A)         (* buf_len() >= n *)
-| Load8 (off : N) (c : N -> prog A)             (* raw unaligned 8-byte little-endian load at buf_ptr()+off *)
+| TryLoad8 (off : N) (c : option N -> prog A)   (* if buf_len() >= off + 8: the raw unaligned 8-byte little-endian
+                                                   load at buf_ptr()+off (the SWAR fast paths); None otherwise *)
 | IsAtEnd (c : bool -> prog A)                  (* is_at_end() *)
 | ErrParked (c : bool -> prog A)                (* io_error().is_some() *)
 | TakeErr (c : option N -> prog A)              (* check_io_error() *)
@@ -28,8 +28,7 @@ Inductive prog (A : Type) : Type :=
 Arguments Ret {A} a.
 Arguments Peek {A} k c.
 Arguments Advance {A} n c.
-Arguments BufLenGe {A} n c.
-Arguments Load8 {A} off c.
+Arguments TryLoad8 {A} off c.
 Arguments IsAtEnd {A} c.
 Arguments ErrParked {A} c.
 Arguments TakeErr {A} c.
@@ -44,8 +43,7 @@ Fixpoint pbind {A B} (p : prog A) (f : A -> prog B) : prog B :=
   | Ret a => f a
   | Peek k c => Peek k (fun o => pbind (c o) f)
   | Advance n c => Advance n (pbind c f)
-  | BufLenGe n c => BufLenGe n (fun b => pbind (c b) f)
-  | Load8 off c => Load8 off (fun w => pbind (c w) f)
+  | TryLoad8 off c => TryLoad8 off (fun w => pbind (c w) f)
   | IsAtEnd c => IsAtEnd (fun b => pbind (c b) f)
   | ErrParked c => ErrParked (fun b => pbind (c b) f)
   | TakeErr c => TakeErr (fun o => pbind (c o) f)
@@ -87,12 +85,11 @@ Fixpoint crun {A} (p : prog A) (s : rstate) : cres A :=
       | (s', None) => crun c s'
       | (s', Some pk) => CPanic pk s'
       end
-  | BufLenGe n c => crun (c (n <=? valid_len s)) s
-  | Load8 off c =>
-      (* the raw load is inside the window only if 8 bytes are buffered at off *)
+  | TryLoad8 off c =>
+      (* the raw load happens only when 8 bytes are buffered at off: it stays inside the window *)
       if off + 8 <=? valid_len s
-      then crun (c (le_value (window (buf s) (pos_in_buf s + off) 8))) s
-      else CUB
+      then crun (c (Some (le_value (window (buf s) (pos_in_buf s + off) 8)))) s
+      else crun (c None) s
   | IsAtEnd c => crun (c (is_at_end s)) s
   | ErrParked c => crun (c (match io_error s with Some _ => true | None => false end)) s
   | TakeErr c => crun (c (io_error s)) (clear_io_error s)
@@ -132,10 +129,6 @@ Definition v_advance (v : view) (n : N) : view :=
   {| vS := vS v; vfail := vfail v; vcur := vcur v + n; vmark := vmark v; vtaken := vtaken v;
      vknown := vknown v; vhwm := vhwm v; vreq := vreq v |}.
 
-Definition v_buflen (v : view) (n : N) (b : bool) : view :=
-  {| vS := vS v; vfail := vfail v; vcur := vcur v; vmark := vmark v; vtaken := vtaken v;
-     vknown := vknown v; vhwm := if b then N.max (vhwm v) (vcur v + n) else vhwm v; vreq := vreq v |}.
-
 Definition v_setmark (v : view) : view :=
   {| vS := vS v; vfail := vfail v; vcur := vcur v; vmark := vcur v; vtaken := vtaken v;
      vknown := vknown v; vhwm := vhwm v; vreq := vreq v |}.
@@ -148,15 +141,26 @@ Definition v_take (v : view) (o : option N) : view :=
 (* is an error parked right now, as far as the view can tell? *)
 Definition v_err_now (v : view) : option N := if vtaken v then None else vfail v.
 
-(* admissible answers of the questions that depend on buffering *)
-Definition buflen_ok (v : view) (n : N) (b : bool) : Prop :=
-  (vcur v + n <= vhwm v -> b = true) /\ (b = true -> vcur v + n <= nlen (vS v)).
-Definition atend_ok (v : view) (b : bool) : Prop :=
-  (vcur v < nlen (vS v) -> b = false) /\ (vknown v = true -> nlen (vS v) <= vcur v -> b = true).
-Definition parked_ok (v : view) (b : bool) : Prop :=
-  (b = true -> v_err_now v <> None) /\ (vknown v = true -> v_err_now v <> None -> b = true).
-Definition take_ok (v : view) (o : option N) : Prop :=
-  (forall e, o = Some e -> v_err_now v = Some e) /\ (vknown v = true -> o = v_err_now v).
+(* The one question whose answer depends on how much happens to be buffered: the fast-path test.
+   Some w is admissible only if the 8 bytes exist in the stream (w is then determined by the stream);
+   None is admissible unless 8 bytes at off are already known to be buffered. *)
+Definition word_at (v : view) (off : N) : N := le_value (window (vS v) (vcur v + off) 8).
+Definition tryload_ok (v : view) (off : N) (o : option N) : Prop :=
+  match o with
+  | Some w => vcur v + off + 8 <= nlen (vS v) /\ w = word_at v off
+  | None => vhwm v < vcur v + off + 8
+  end.
+(* knowing 8 more bytes to be buffered *)
+Definition v_loaded (v : view) (off : N) (o : option N) : view :=
+  {| vS := vS v; vfail := vfail v; vcur := vcur v; vmark := vmark v; vtaken := vtaken v; vknown := vknown v;
+     vhwm := match o with Some _ => N.max (vhwm v) (vcur v + off + 8) | None => vhwm v end; vreq := vreq v |}.
+
+(* is_at_end(), io_error().is_some(), check_io_error(): functions of the view, because the reader
+   is complete exactly when a peek has come back empty (vknown) *)
+Definition s_atend (v : view) : bool := vknown v && (nlen (vS v) <=? vcur v).
+Definition s_parked (v : view) : bool :=
+  vknown v && match v_err_now v with Some _ => true | None => false end.
+Definition s_take (v : view) : option N := if vknown v then v_err_now v else None.
 
 Inductive ares (A : Type) :=
 | ADone (a : A) (v : view)
@@ -173,37 +177,26 @@ Inductive aruns {A} : prog A -> view -> ares A -> Prop :=
 | ar_peek k c v r : aruns (c (vpeek v k)) (after_peek v k) r -> aruns (Peek k c) v r
 | ar_adv n c v r : vcur v + n <= vhwm v -> aruns c (v_advance v n) r -> aruns (Advance n c) v r
 | ar_adv_stuck n c v : vhwm v < vcur v + n -> aruns (Advance n c) v AStuck
-| ar_buflen n c v b r : buflen_ok v n b -> aruns (c b) (v_buflen v n b) r -> aruns (BufLenGe n c) v r
-| ar_load off c v r :
-    vcur v + off + 8 <= vhwm v ->
-    aruns (c (le_value (window (vS v) (vcur v + off) 8))) v r -> aruns (Load8 off c) v r
-| ar_load_stuck off c v : vhwm v < vcur v + off + 8 -> aruns (Load8 off c) v AStuck
-| ar_atend c v b r : atend_ok v b -> aruns (c b) v r -> aruns (IsAtEnd c) v r
-| ar_parked c v b r : parked_ok v b -> aruns (c b) v r -> aruns (ErrParked c) v r
-| ar_take c v o r : take_ok v o -> aruns (c o) (v_take v o) r -> aruns (TakeErr c) v r
+| ar_tryload off c v o r : tryload_ok v off o -> aruns (c o) (v_loaded v off o) r -> aruns (TryLoad8 off c) v r
+| ar_atend c v r : aruns (c (s_atend v)) v r -> aruns (IsAtEnd c) v r
+| ar_parked c v r : aruns (c (s_parked v)) v r -> aruns (ErrParked c) v r
+| ar_take c v r : aruns (c (s_take v)) (v_take v (s_take v)) r -> aruns (TakeErr c) v r
 | ar_setmark c v r : aruns c (v_setmark v) r -> aruns (SetMark c) v r
 | ar_getmark c v r : aruns (c (vmark v mod W64)) v r -> aruns (GetMark c) v r
 | ar_getpos c v r : aruns (c (vcur v mod W64)) v r -> aruns (GetPos c) v r
 | ar_crash k v : aruns (Crash k) v (APanic k)
 | ar_nofuel v : aruns NoFuel v AFuel.
 
-(* The deterministic "simple" run: every buffering question gets the answer of a
-   reader that has buffered nothing beyond what the program has already seen. *)
-Definition s_buflen (v : view) (n : N) : bool := vcur v + n <=? vhwm v.
-Definition s_atend (v : view) : bool := vknown v && (nlen (vS v) <=? vcur v).
-Definition s_parked (v : view) : bool :=
-  vknown v && match v_err_now v with Some _ => true | None => false end.
-Definition s_take (v : view) : option N := if vknown v then v_err_now v else None.
+(* The deterministic "simple" run: the fast path is taken only when it is forced. *)
+Definition s_tryload (v : view) (off : N) : option N :=
+  if vcur v + off + 8 <=? vhwm v then Some (word_at v off) else None.
 
 Fixpoint srun {A} (p : prog A) (v : view) : ares A :=
   match p with
   | Ret a => ADone a v
   | Peek k c => srun (c (vpeek v k)) (after_peek v k)
   | Advance n c => if vcur v + n <=? vhwm v then srun c (v_advance v n) else AStuck
-  | BufLenGe n c => srun (c (s_buflen v n)) (v_buflen v n (s_buflen v n))
-  | Load8 off c =>
-      if vcur v + off + 8 <=? vhwm v
-      then srun (c (le_value (window (vS v) (vcur v + off) 8))) v else AStuck
+  | TryLoad8 off c => srun (c (s_tryload v off)) (v_loaded v off (s_tryload v off))
   | IsAtEnd c => srun (c (s_atend v)) v
   | ErrParked c => srun (c (s_parked v)) v
   | TakeErr c => srun (c (s_take v)) (v_take v (s_take v))
